@@ -515,6 +515,73 @@ fn eval_case(i: usize, c: &FileCase, dir: &Path, t: &mut Tally, env: u8) {
     crate::seqmc::engine::close_leaked_fds(&path);
 }
 
+/// "... and never a crash", while the file changes under the client: a client thread opens the segment over and over
+/// while another thread of the same (forked) process plays daemon start-ups over files with a valid header and a
+/// declared size of 16..71 bytes (the one content class that gets a client past the header check and is repaired by
+/// the daemon, which truncates the very inode the client may have mapped). The only thing looked at is whether the
+/// process survives (a load through a mapping beyond the end of the file is SIGBUS). Free-running threads for two
+/// seconds: a demonstration, not an exploration - loads the client makes through its mapping during open are
+/// not behind the explorer's hooks (DESIGN section 9); a verdict only comes from a crash that was observed.
+fn open_while_repaired(ctx: &Ctx, t: &mut Tally) -> Value {
+    use clock_bound_shm::{ShmReader, ShmWriter};
+    let dir = ctx.scratch().join("open-race");
+    let _ = std::fs::create_dir_all(&dir);
+    let path = dir.join("shm");
+    let p2 = path.clone();
+    let r = crate::common::privdrop::run_opts(
+        move || {
+            let stop = std::sync::Arc::new(std::sync::atomic::AtomicBool::new(false));
+            let (s2, p3) = (stop.clone(), p2.clone());
+            let daemon = std::thread::spawn(move || {
+                let mut starts = 0u64;
+                let tmp = p3.with_extension("new");
+                while !s2.load(std::sync::atomic::Ordering::Relaxed) {
+                    for size in [40u32, 16, 71] {
+                        let mut b = crate::seqmc::engine::valid_file(2, &crate::seqmc::engine::tagged(5));
+                        b[8..12].copy_from_slice(&size.to_ne_bytes());
+                        b.truncate(size as usize);
+                        let _ = std::fs::write(&tmp, &b);
+                        let _ = std::fs::rename(&tmp, &p3);
+                        let w = ShmWriter::new(&p3);
+                        drop(w);
+                        starts += 1;
+                    }
+                    // (every ShmWriter::new leaves a descriptor open, and they cannot be closed by path while the client
+                    // thread opens the same path: stop well below the descriptor limit)
+                    if starts >= 6000 {
+                        break;
+                    }
+                }
+                s2.store(true, std::sync::atomic::Ordering::Relaxed);
+                starts
+            });
+            let c = std::ffi::CString::new(p2.to_str().unwrap()).unwrap();
+            let t0 = crate::common::vclock::raw_now_s();
+            let (mut opens, mut ok) = (0u64, 0u64);
+            while crate::common::vclock::raw_now_s() - t0 < 2.0 && !stop.load(std::sync::atomic::Ordering::Relaxed) {
+                opens += 1;
+                if ShmReader::new(&c).is_ok() {
+                    ok += 1;
+                }
+            }
+            stop.store(true, std::sync::atomic::Ordering::Relaxed);
+            let starts = daemon.join().unwrap_or(0);
+            crate::seqmc::engine::close_leaked_fds(&p2);
+            json!({"client_opens": opens, "of_which_succeeded": ok, "daemon_start_ups": starts})
+        },
+        false,
+        false,
+    );
+    match r {
+        Ok(v) => json!({"kind": "free-running threads for 2 s (a demonstration, not an exploration)", "observed": v, "client_process_survived": true}),
+        Err(e) if e.contains("ended abnormally") => {
+            t.add("C16:crash-during-open", format!("a client that opens the segment over and over while a starting daemon repairs files with a valid header and a declared size of 16 / 40 / 71 bytes was killed ({e}): an open that races with the daemon's repair must yield an error kind, never a crash"), json!({"check": "C16", "phase": "open while the daemon repairs the file", "observed": e}));
+            json!({"kind": "free-running threads for 2 s (a demonstration, not an exploration)", "client_process_survived": false, "observed": e})
+        }
+        Err(e) => crate::common::report::machinery_failure(&format!("C16 open-while-repaired phase: {e}")),
+    }
+}
+
 /// "After the daemon's start-up and first publication clients can open it", with the daemon started the way it
 /// is in production (the release binary, `main()` included) and the client another user (procmc/e2e.rs).
 fn end_to_end(ctx: &Ctx, t: &mut Tally) -> Value {
@@ -567,6 +634,16 @@ pub fn run(ctx: &Ctx) -> i32 {
     let base = ctx.scratch();
     if let Some(p) = &ctx.replay {
         let doc: Value = serde_json::from_str(&std::fs::read_to_string(p).expect("replay file")).expect("json");
+        if doc["case"]["case_index"].is_null() {
+            // the open-while-repaired demonstration: run it again
+            let mut t = Tally { n: 0, nontrivial: 0, classes: BTreeMap::new(), counts: BTreeMap::new(), kept: vec![] };
+            let v = open_while_repaired(ctx, &mut t);
+            println!("{}", serde_json::to_string_pretty(&v).unwrap());
+            for k in &t.kept {
+                println!("  {} :: {}", k.signature, k.text);
+            }
+            return 0;
+        }
         let i = doc["case"]["case_index"].as_u64().unwrap() as usize;
         let mut t = Tally { n: 0, nontrivial: 0, classes: BTreeMap::new(), counts: BTreeMap::new(), kept: vec![] };
         let env = if doc["case"]["environment"] == "cross-uid" { 1 } else if doc["case"]["environment"] == "no-stdin" { 2 } else { 0 };
@@ -620,8 +697,10 @@ pub fn run(ctx: &Ctx) -> i32 {
         }
     }
     let e2e = end_to_end(ctx, &mut t);
+    let race = open_while_repaired(ctx, &mut t);
     let samples: Vec<Value> = [3usize, 90, all.len() - 3].iter().map(|i| json!({"case": all[*i].label, "documented_rules_say": format!("{:?}", reference(&all[*i].kind))})).collect();
     let coverage = cov(vec![
+        ("open_while_the_daemon_repairs_the_file", race),
         ("evaluations", json!(t.n)),
         ("distinct_nontrivial", json!(t.nontrivial)),
         ("rule", json!("truncations/extensions of a valid segment at every length 0..80; the product magic x declared size x version x generation x body (file as long as declared where that is <= 4096); every single-byte mutation (5 values) of the first 64 bytes of a valid segment; missing file, missing parents, directory, dangling symlink. All distinct; non-trivial = cases the documented header rules do not accept")),
